@@ -23,7 +23,8 @@ CHECKS = {
     "C16": {"harnesses": [("harness.events", "C16_HaltTiming")]},
     "C17": {"harnesses": [("harness.functions", "C17_IndexValues"), ("harness.functions", "C17_IndexInRun")]},
     "C18": {"harnesses": [("harness.config", "C18_JsonExtends"), ("harness.config", "C18_Expansion"),
-                          ("harness.config", "C18_RandomValues"), ("harness.config", "C18_LegacyKeys"),
+                          ("harness.config", "C18_RandomValues"), ("harness.config", "C18_UniformIEEE"),
+                          ("harness.config", "C18_LegacyKeys"),
                           ("harness.config", "C18_ClassLookup")]},
     "C19": {"harnesses": [("harness.functions", "C19_TickRounding")]},
     "C20": {"harnesses": [("harness.agents", "C20_FCN"), ("harness.agents", "C20_MarketShareFCN"),
